@@ -11,7 +11,9 @@ CONSTANTS
   AtomicAlloc = TRUE
   IdDecode = "strict"
   IdVocab = "small"
+  KindShift = 0
+  NullResult = "ok"
 INIT Init
 NEXT Next
-INVARIANTS TypeOK Matched NoInventedResponse UniqueIds PendingIsMap PendingOwned IdTypePreserved DispatchedToOwner PeerCallsEchoed FramesNeverInterleave MutexOK ReaderNeverBlocks PendingExact RegisteredBeforeSending PendingEmptyAtQuiescence
+INVARIANTS TypeOK Matched NoInventedResponse UniqueIds PendingIsMap PendingOwned IdTypePreserved DispatchedToOwner PeerCallsEchoed FramesNeverInterleave MutexOK ReaderNeverBlocks ReaderAlive PendingExact RegisteredBeforeSending PendingEmptyAtQuiescence
 CHECK_DEADLOCK FALSE
